@@ -65,7 +65,9 @@ func c07Env_() *c07Env {
 			model.Build(withFirst).Drop("aaa"),
 			model.Build(base).Eval("ev0", qframe.Expr("+", qframe.Expr("abs", types.ColumnName("i")), 1)),
 			// 70 rows (the base rows in a mixed order, repeated): beyond any blocked or unrolled loop
-			model.Build(base.Rows(c07BigRows())), model.BuildShape(base.Rows(c07BigRows()), model.ShapeSparsePerm)} {
+			model.Build(base.Rows(c07BigRows())), model.BuildShape(base.Rows(c07BigRows()), model.ShapeSparsePerm),
+			// a parent whose last step added a column (Copy): two Evals on this one object (see runEvalCase)
+			model.Build(base).Copy("cp", "i").Copy("cq", "f")} {
 			o := model.Observe(q)
 			o.AdoptMeta(base)
 			e.real = append(e.real, q)
@@ -80,7 +82,7 @@ func c07ShapeName(s int) string {
 	if s < model.NShapes {
 		return model.ShapeNames[s]
 	}
-	return []string{"zero-rows", "one-row", "one-row-of-a-sorted-frame", "first-column-dropped", "after-an-eval", "70-rows", "70-rows-sparseperm"}[s-model.NShapes]
+	return []string{"zero-rows", "one-row", "one-row-of-a-sorted-frame", "first-column-dropped", "after-an-eval", "70-rows", "70-rows-sparseperm", "after-two-copies"}[s-model.NShapes]
 }
 
 func c07BigRows() []int {
@@ -106,7 +108,19 @@ func runEvalCase(c evalCase) *core.Failure {
 		fns = append(fns, eval.EvalContext(env.user))
 	}
 	expr := model.BuildExpr(c.Expr, c.Style)
+	// on the parent made by Copy: an earlier Eval result of the same parent object is kept and looked at again afterwards
+	var earlier qframe.QFrame
+	earlierObs := ""
+	if c07ShapeName(c.Shape) == "after-two-copies" {
+		earlier = qf.Eval("zfirst", qframe.Val(types.ColumnName("i2")))
+		earlierObs = model.Observe(earlier).String() + fmt.Sprint(earlier.ColumnNames())
+	}
 	got := model.Observe(qf.Eval(c.Dst, expr, fns...))
+	if earlierObs != "" {
+		if now := model.Observe(earlier).String() + fmt.Sprint(earlier.ColumnNames()); now != earlierObs {
+			return core.Failf("Eval(%q, %s) on a parent changed the result of an EARLIER Eval on the same parent:\n before: %s\n  after: %s", c.Dst, c.Expr, earlierObs, now)
+		}
+	}
 	want := model.Eval(in, c.Dst, c.Expr, c.User)
 	if d := model.Diff(want, got); d != "" {
 		return core.Failf("Eval(%q, %s) style=%s user_ctx=%v on %s frame: %s\n input: %s\n  want: %s\n   got: %s",
@@ -269,7 +283,7 @@ func c07Run(ctx *core.Ctx) {
 						if !ctx.Mine() {
 							continue
 						}
-						shape := int(ctx.Index() % int64(model.NShapes+7))
+						shape := int(ctx.Index() % int64(model.NShapes+8))
 						exec(evalCase{Shape: shape, Dst: dst, Expr: e, Style: style, User: user})
 					}
 				}
